@@ -50,7 +50,13 @@ func c14Jobs(tier string) []string {
 			jobs = append(jobs, fmt.Sprintf("%d:%d", b, c))
 		}
 	}
-	return append(jobs, c14TCPJobs(tier)...)
+	jobs = append(jobs, c14TCPJobs(tier)...)
+	// far from the last loss event (see c14far.go)
+	jobs = append(jobs, "far:2147483648")
+	if tier == "thorough" {
+		jobs = append(jobs, "far:1073741824", "far:3221225472", "far:4296015872")
+	}
+	return jobs
 }
 
 // The TCP half of the property: the users of the arithmetic. The stream / window / handshake
@@ -175,6 +181,19 @@ func c14Run(job, tier string, deadline time.Time) *engine.Result {
 		}
 		return r
 	}
+	if strings.HasPrefix(job, "far:") {
+		var n uint64
+		fmt.Sscanf(job, "far:%d", &n)
+		r.Execs, r.Nontrivial, r.States = 1, 1, 2
+		r.Transitions = int64(n / 32768)
+		if m := c14FarRecover(n); m != "" {
+			r.Violations = append(r.Violations, engine.Violation{Property: "C14", Kind: "far-from-loss-event", Key: "tcp-wrap:no-fast-retransmit-far", Detail: m, Job: job, Replay: engine.MustJSON(map[string]interface{}{"far": n})})
+		}
+		r.Outcomes = []uint64{engine.Hash(job, len(r.Violations))}
+		r.Bound = fmt.Sprintf("one history: %d bytes acknowledged without loss, then a flight of five with the first lost and three duplicate ACKs", n)
+		r.Sample(map[string]interface{}{"far": r.Bound})
+		return r
+	}
 	var b uint32
 	var chunk int
 	fmt.Sscanf(job, "%d:%d", &b, &chunk)
@@ -245,6 +264,15 @@ func c14Replay(rp json.RawMessage) *engine.Violation {
 			v.Property = "C14"
 		}
 		return v
+	}
+	var fr struct {
+		Far uint64 `json:"far"`
+	}
+	if json.Unmarshal(rp, &fr) == nil && fr.Far > 0 {
+		if m := c14FarRecover(fr.Far); m != "" {
+			return &engine.Violation{Property: "C14", Kind: "far-from-loss-event", Key: "tcp-wrap:no-fast-retransmit-far", Detail: m}
+		}
+		return nil
 	}
 	var p struct {
 		Base, W uint32
